@@ -281,10 +281,11 @@ def icp(rng, tier):
         src64 = X.Inv().Act(tgt64 - centre) + centre
         src, tgt = src64.to(dt), tgt64.to(dt)
         icp_ = pp.module.ICP()
-        Y = icp_(src, tgt)
+        ordk = 2 if (dense or off) else [2, 1, 3, 2][k % 4]          # the documented `ord` of the nearest-neighbour search: 1 and 3 as well (origin-centred sparse clouds)
+        Y = icp_(src, tgt) if ordk == 2 else icp_(src, tgt, ord=ordk)
         before, after = msd(src, tgt), msd(Y.Act(src), tgt)
         floor = (100 * eps * max(float(centre.norm()), size)) ** 2          # coordinates carry eps*|c| of round-off
-        sig = f'{str(dt).split(".")[-1]}/offset={off:g}' + ('/dense' if dense else '')
+        sig = f'{str(dt).split(".")[-1]}/offset={off:g}' + ('/dense' if dense else '') + ('' if ordk == 2 else f'/ord={ordk}')
         if dense and dt == torch.float64:
             # started at the exact transform the result must not be worse than that
             c_ = centre
